@@ -62,6 +62,10 @@ static void world_random_config(vrt_rng *r, int max_es, int *nes, int *shared,
  * (the primary's main scheduler is replaced as well).  Otherwise each stream
  * has its own MPMC pool; with ABT_SCHED_RANDWS each scheduler additionally
  * lists all other pools as steal victims. */
+/* access mode of the private pools of the secondary streams (several producers,
+ * one consumer is what a private pool needs: MPMC, MPSC; SPSC only where the
+ * harness has a single pusher besides the owning stream) */
+static ABT_pool_access w_private_access = ABT_POOL_ACCESS_MPMC;
 static void world_create(world_t *w, int nes, int shared, int pool_kind,
                          int sched_predef)
 {
@@ -93,8 +97,8 @@ static void world_create(world_t *w, int nes, int shared, int pool_kind,
         VRT_ABT(ABT_xstream_get_main_pools(w->xs[0], 1, &w->pools[0]));
         for (int i = 1; i < nes; i++)
             VRT_ABT(ABT_pool_create_basic((ABT_pool_kind)pool_kind,
-                                          ABT_POOL_ACCESS_MPMC, ABT_TRUE,
-                                          &w->pools[i]));
+                                          sched_predef == ABT_SCHED_RANDWS ? ABT_POOL_ACCESS_MPMC : w_private_access,
+                                          ABT_TRUE, &w->pools[i]));
         for (int i = 1; i < nes; i++) {
             ABT_pool mine[W_MAXES];
             int n = 0;
